@@ -1462,7 +1462,16 @@ class Interp:
     def st_While(self, st, frame):
         n = 0
         snaps = []
+        concrete = 0
+        mark = None
         while True:
+            now = len(self.oracle.trace) if self.oracle is not None else None
+            if mark is not None and now == mark and concrete < 5000 and n > 0:
+                # the whole previous iteration - condition and body - ran on constants alone (a scanner over a literal):
+                # such iterations are executed, not bounded; the step budget still ends a loop that never stops
+                concrete += 1
+                n -= 1
+            mark = now
             if not self.truth(self.eval(st.test, frame)):
                 self.exec_block(st.orelse, frame)
                 return
